@@ -396,6 +396,13 @@ class BuiltinMixin:
                 facts.append(f(xs) == z3.Empty(sym.IntSeq))
             elif k == z3.Z3_OP_SEQ_UNIT:
                 facts.append(f(xs) == xs_s.children()[0])
+            elif k == z3.Z3_OP_SEQ_EXTRACT and depth < 2 and not sep:
+                # Flat(xs[o:o+l]) = xs[o] ++ Flat(xs[o+1:o+l])   (l > 0, slice in range)
+                base, o, l = xs_s.children()
+                nxt = z3.SubSeq(base, o + 1, l - 1)
+                facts.append(z3.Implies(z3.And(l > 0, o >= 0, o + l <= z3.Length(base)),
+                                        f(xs) == z3.Concat(base[o], f(nxt))))
+                facts.append(z3.Implies(l <= 0, f(xs) == z3.Empty(sym.IntSeq)))
             elif k == z3.Z3_OP_SEQ_CONCAT and depth < 8:
                 ch = xs_s.children()
                 a, b = ch[0], (z3.Concat(*ch[1:]) if len(ch) > 2 else ch[1])
@@ -457,6 +464,14 @@ class BuiltinMixin:
             st.assume(z3.Implies(r >= 0, z3.And(r < n, recv.z[r] == c)))
             i = z3.Int(sym.fresh_name("i"))
             st.assume(z3.ForAll([i], z3.Implies(z3.And(i >= 0, i < z3.If(r >= 0, r, n)), recv.z[i] != c)))
+            rz = recv.z
+            if z3.is_app(rz) and rz.decl().kind() == z3.Z3_OP_SEQ_CONCAT and rz.num_args() == 2:
+                # find in a ++ b: the first occurrence in a if there is one, else |a| + the first occurrence in b
+                a, b = rz.children()
+                fa = z3.IndexOf(a, p.z, z3.IntVal(0))
+                fb = z3.IndexOf(b, p.z, z3.IntVal(0))
+                st.assume(z3.Implies(fa >= 0, r == fa))
+                st.assume(z3.Implies(fa < 0, r == z3.If(fb >= 0, z3.Length(a) + fb, -1)))
         return v
 
     def _strip(self, recv, args, st, left, right, node):
